@@ -600,6 +600,72 @@ func genCounter(tier string, emit func(string)) {
 	}
 }
 
+// A8: usage update (read / write-back) x revocation x activation at the quota, all on mapping 0.
+// The record requests run on threads whose `inst` (7) stands for the record lock.
+func genRmw(tier string, emit func(string)) {
+	for _, limit := range []int{1, 2, 3} {
+		for _, pre := range []int{limit, limit - 1} {
+			if pre < 1 {
+				continue
+			}
+			for _, thr := range [][]thrSpec{
+				{{7, "u"}, {7, "w"}, {0, "a"}},
+				{{7, "u"}, {7, "w"}, {0, "aa"}},
+				{{7, "u"}, {7, "u"}, {7, "w"}, {0, "a"}},
+			} {
+				steps := make([]int, len(thr))
+				total := 0
+				for i, t := range thr {
+					steps[i] = 2
+					if t.ops[0] == 'a' {
+						steps[i] = 3 * len(t.ops)
+					}
+					total += steps[i]
+				}
+				cnt := 0
+				stride := 1
+				if len(thr) == 4 || len(thr[2].ops) > 1 {
+					stride = 7
+				}
+				if tier == "quick" {
+					stride *= 5
+					if limit == 3 {
+						stride *= 3
+					}
+				}
+				var cur []int
+				var rec func()
+				rec = func() {
+					if len(cur) == total {
+						cnt++
+						if cnt%stride != 1%stride {
+							return
+						}
+						out := append([]int(nil), cur...)
+						for r := 0; r < 4; r++ {
+							for t := range thr {
+								out = append(out, t)
+							}
+						}
+						emit(mkCase("mapq", limit, pre, thr, out))
+						return
+					}
+					for t := range thr {
+						if steps[t] > 0 {
+							steps[t]--
+							cur = append(cur, t)
+							rec()
+							cur = cur[:len(cur)-1]
+							steps[t]++
+						}
+					}
+				}
+				rec()
+			}
+		}
+	}
+}
+
 // A': random interleavings of N racing admissions at the boundary (scopes too large to enumerate).
 func genRandomInterleavings(r *common.Rand, count int, emit func(string)) {
 	for i := 0; i < count; i++ {
@@ -749,6 +815,7 @@ func generate(r *common.Rand, tier string, emit func(string)) {
 	genQuotaShapes(r, tier, emit)
 	genRevoke(tier, emit)
 	genCounter(tier, emit)
+	genRmw(tier, emit)
 	genMultiNode(emit)
 	genStress(tier, emit)
 	if tier == "thorough" {
